@@ -251,6 +251,8 @@ class Result:
         self.later_object_handled: bool | None = None
         self.forced = False
         self.signal_fallback = False
+        self.inflight_at_trigger: list = []
+        self.notes: list[str] = []
 
 
 def is_discovery(req: fakeapi.Request) -> bool:
@@ -303,6 +305,17 @@ def run_scenario(sc: dict) -> Result:
                     return fakeapi.Fault(status=500)
                 return None
             api.fault_hook = kf
+        if sc.get('peering_latency'):
+            # the server applies a PATCH of the peering object at once but answers only after the latency: the request is
+            # "in flight, already applied" in between
+            base_hook = api.fault_hook
+
+            def slow_peering(req: fakeapi.Request) -> Any:
+                f = base_hook(req) if base_hook is not None else None
+                if f is None and req.method == 'PATCH' and PEERING_NAME in req.path:
+                    return fakeapi.Fault(delay_after=sc['peering_latency'])
+                return f
+            api.fault_hook = slow_peering
         inc.start()
         rec.watch_ready(inc)
         rec.main = inc.task
@@ -345,7 +358,15 @@ def run_scenario(sc: dict) -> Result:
                 inc.cancel()
 
         at = trig.get('at', 0)
-        if trig.get('inflight'):
+        if trig.get('peering_patch'):
+            # the trigger comes `offset` seconds after the operator's n-th PATCH of the peering object reached the server
+            n = trig['peering_patch']
+            w.run_until(lambda: len([q for q in api.requests if q.method == 'PATCH' and PEERING_NAME in q.path]) >= n, 60)
+            w.run_for(trig.get('offset', 0))
+            res.inflight_at_trigger = [q.brief() for q in api.requests
+                                       if q.method == 'PATCH' and PEERING_NAME in q.path and q.t <= w.now < q.t + sc.get('peering_latency', 0)]
+            res.notes.append('trigger-while-peering-patch-in-flight' if res.inflight_at_trigger else 'trigger-between-peering-patches')
+        elif trig.get('inflight'):
             # an object whose create handler is still running when the trigger comes
             w.run_for(max(0.0, at - 1))
             api.create(K, 'ns1', 'late', {'spec': {'late': True}})
@@ -806,7 +827,7 @@ def exit_bound(sc: dict) -> float:
     ds = DAEMON_SETS[sc['daemons']]
     per_daemon = max([(d['backoff'] or 0) + (d['timeout'] or 0) for d in ds] + [0])
     cleanup = activity_time(CLEANUPS[sc['cleanup']])
-    return EXIT_TIMEOUT + 5 + per_daemon + cleanup + 3 + 0.5      # + error_backoffs [1, 2] of the final touch + slack
+    return EXIT_TIMEOUT + 5 + per_daemon + cleanup + 3 + 0.5 + 2 * sc.get('peering_latency', 0)   # + error_backoffs [1, 2] of the final touch + its latency + slack
 
 
 def monitors(ctx: fw.Ctx, res: Result, tr: Translation) -> None:
@@ -826,6 +847,7 @@ def monitors(ctx: fw.Ctx, res: Result, tr: Translation) -> None:
     startup_failed = bool(st_end) and st_end[0]['out'] == 'err'
     expect_startup_fail = finally_fails(STARTUPS[sc['startup']])
     perm_startup = [c for c in startups if c['outcome'] == 'perm']
+    trig_at = res.trigger_t if res.trigger_t is not None else trig.get('at', 0)
 
     if res.error:
         ctx.fail('the scenario did not run to its end', case, observed=res.error, sig='scenario-error')
@@ -849,7 +871,7 @@ def monitors(ctx: fw.Ctx, res: Result, tr: Translation) -> None:
         for c in startups:
             if c['ended'] is None or ready[0]['t'] < c['ended']:
                 ctx.fail('the ready flag was raised before a startup handler had finished', case, observed=c['handler'], sig='ready-before-startup')
-    elif startup_ok and not (trig['kind'] in ('stop', 'cancel') and trig.get('at', 0) <= (st_end[0]['t'] if st_end else 0)):
+    elif startup_ok and not (trig['kind'] in ('stop', 'cancel') and trig_at <= (st_end[0]['t'] if st_end else 0)):
         ctx.fail('startup succeeded but the ready flag was never raised', case, sig='never-ready')
     # --- a stop request (flag, signal, cancellation) while the startup activity is still running (slow, retrying, ...):
     #     the unchanged operator abandons the startup at once ("only partially executed"), never goes on to the API, never
@@ -888,7 +910,7 @@ def monitors(ctx: fw.Ctx, res: Result, tr: Translation) -> None:
     # a stop trigger that comes while the startup activity still runs, or within the 5 s of the hung-tasks phase after its
     # failure, legitimately changes how kopf.operator() ends
     t_fail = st_end[0]['t'] if st_end else None
-    early_trigger = trig['kind'] in ('stop', 'cancel') and (t_fail is None or trig.get('at', 0) <= t_fail + 6)
+    early_trigger = trig['kind'] in ('stop', 'cancel') and (t_fail is None or trig_at <= t_fail + 6)
     if (expect_startup_fail or perm_startup) and not early_trigger:
         exc = res.inc.exception if res.inc else None
         if not res.exited or res.forced or type(exc).__name__ != 'ActivityError':
@@ -997,9 +1019,14 @@ def monitors(ctx: fw.Ctx, res: Result, tr: Translation) -> None:
         touched = [q for q in reqs if q.method == 'PATCH' and PEERING_NAME in q.path and q.status == 200
                    and isinstance(q.payload, dict) and any(v is not None for v in (q.payload.get('status') or {}).values())]
         if touched:
-            if res.peer_status:
-                if trig['kind'] != 'keepalive_fail':
-                    ctx.fail('the peering record was not withdrawn', case, observed=res.peer_status, sig='peering-not-withdrawn')
+            mine = sorted({k for q in touched for k, v in q.payload['status'].items() if v is not None})     # this operator's identity
+            left = {k: v for k, v in (res.peer_status or {}).items() if k in mine and v is not None}
+            if left and trig['kind'] != 'keepalive_fail':         # (there the final PATCH cannot succeed)
+                ctx.fail('at the return of kopf.operator() the peering object still holds a record of this operator', case,
+                         observed={'record': left, 'requests_in_flight_at_the_trigger': res.inflight_at_trigger,
+                                   'peering_patches': [(q.t, 'withdraw' if all(v is None for v in (q.payload.get('status') or {}).values()) else 'announce', q.status)
+                                                       for q in reqs if q.method == 'PATCH' and PEERING_NAME in q.path][:8]},
+                         sig='peering-not-withdrawn')
             wd = [q for q in reqs if q.method == 'PATCH' and PEERING_NAME in q.path and isinstance(q.payload, dict)
                   and (q.payload.get('status') or {}) and all(v is None for v in q.payload['status'].values())]
             if wd and cl_order is not None and wd[-1].order > cl_order:
@@ -1216,6 +1243,18 @@ def grid(ctx: fw.Ctx) -> list[dict]:
         for ds in ('none', 'obeys'):
             for at in (1, 2, 10, 30):
                 add(peering=True, daemons=ds, trigger={'kind': kind, 'at': at})
+    # 3b. peering with a slow API for the peering object: stop triggers while a keep-alive PATCH is in flight (applied by the
+    #     server, not yet answered) — the very first one, a later one — and between two of them
+    for lat in (2, 0.5):
+        for n, offs in ((1, (0.25, 0.5 * lat, lat - 0.125, lat + 1)), (2, (0.5 * lat,))):
+            for off in offs:
+                for ds in ('none', 'obeys'):
+                    add(peering=True, peering_latency=lat, daemons=ds, trigger={'kind': 'stop', 'peering_patch': n, 'offset': off})
+                    add(peering=True, peering_latency=lat, daemons=ds, trigger={'kind': 'cancel', 'peering_patch': n, 'offset': off})
+                add(peering=True, peering_latency=lat, trigger={'kind': 'stop', 'via': 'signal', 'peering_patch': n, 'offset': off})
+                add(peering=True, peering_latency=lat, scanning=True, trigger={'kind': 'crd_error', 'peering_patch': n, 'offset': off})
+        add(peering=True, peering_latency=lat, startup='retried', trigger={'kind': 'stop', 'peering_patch': 1, 'offset': 0.25})
+        add(peering=True, peering_latency=lat, cleanup='fail', trigger={'kind': 'cancel', 'peering_patch': 1, 'offset': 0.25})
     # 4. a root task fails
     for ds in dsets_small:
         for startup in ('ok', 'none', 'fail'):
@@ -1251,11 +1290,19 @@ def grid(ctx: fw.Ctx) -> list[dict]:
             if kind == 'crd_error':
                 sc['trigger']['at'] = max(sc['trigger']['at'], 9.0)
                 sc['startup'] = r.choice(['none', 'ok', 'two', 'all-retried-ok'])
+            if sc['peering'] and r.random() < 0.7:
+                sc['peering_latency'] = r.choice([0.5, 1, 2, 3])
+                if kind in ('stop', 'cancel', 'crd_error') and r.random() < 0.6:
+                    sc['trigger'].pop('at', None)
+                    sc['trigger'].update({'peering_patch': r.choice([1, 1, 1, 2]), 'offset': r.randrange(0, 33) / 8.0})
+                    if kind == 'crd_error':
+                        sc['scanning'] = True
+                    sc['startup'] = r.choice(['none', 'ok', 'two', 'all-retried-ok'])
             if kind == 'stop' and r.random() < 0.3:
                 sc['trigger']['via'] = 'signal'
-                if sc['trigger']['at'] == 0:
+                if sc['trigger'].get('at') == 0:
                     sc['trigger']['settled'] = True
-            if kind in ('stop', 'cancel') and r.random() < 0.3 and sc['trigger']['at'] >= 1:
+            if kind in ('stop', 'cancel') and r.random() < 0.3 and sc['trigger'].get('at', 0) >= 1:
                 sc['trigger']['inflight'] = True
             scs.append(sc)
     return scs
@@ -1304,6 +1351,10 @@ def check_scenario(ctx: fw.Ctx, sc: dict, cases: list[fw.Case], label: str = '')
     for l in tr.labels:
         ctx.count('label_kind', l.split(' ')[0])
     ctx.count('trigger', sc['trigger']['kind'])
+    for note in res.notes:
+        ctx.count('peering_trigger', note)
+    if sc.get('peering_latency'):
+        ctx.count('peering_latency', str(sc['peering_latency']))
     ctx.count('startup', sc['startup'])
     ctx.count('daemons', sc['daemons'])
     nfailed = len([e for e in res.events if e['ev'] == 'done' and e['out'] == 'err' and e['task'] is not res.main
